@@ -6,7 +6,7 @@ model `ok` <-> implementation returned normally, model `err` <-> exit status != 
 diagnostic; `asan`, `signal`, `exit-nodiag`, `exit0`, `timeout` are always violations of the property
 with the request as the concrete input.
 """
-import os, random
+import math, os, random
 from fractions import Fraction
 from common import *
 
@@ -19,7 +19,8 @@ RULE = ("boundary enumeration per guarded entry point (index = size-1, size, siz
 CORR_ONLY = ["real memory safety is observed by the sanitizers on the compiled program; the theorems prove the index arithmetic",
              "Interpolation_2D(data_table) sort/unique step: std::sort + std::unique modelled by mergeSort + eraseDups (guard_iff for this constructor is correspondence-only)",
              "values returned by accepted requests are not compared here (C01-C09, C12-C20 do that)"]
-ASSUMPTIONS = ["1e-2 of Interpolation::Locate is modelled as exactly 1/100; generated abscissae keep a 2^-30 relative margin from the tolerance edge, or sit on it where 0.01*h is exact in double",
+ASSUMPTIONS = ["1e-2 of Interpolation::Locate is modelled as exactly 1/100 and unit products exactly; abscissae are probed at ZERO margin (the edge itself, 1/2/4 ulps and 2^-50, 2^-40 relative beside it): a request is left out only if the domain test evaluated in double arithmetic differs from its exact evaluation AND the abscissa lies within 2^-44 (relative) of the edge (counted in input_distribution; 0 of ~6200 quick, 200 of ~45000 thorough requests)",
+               "boundary reading of the 1% tolerance: the code (and the shared model Lp.Interp.locate) accepts |x - end| < 1% of the edge interval; an argument EXACTLY 1% outside (observable in doubles, e.g. Interpolation({0,100,200})(-1.0)) stops - see fixprop-C10-17 (`<=`)",
                "Matrix::Inverse: with exact arithmetic the third exit (zero pivot after partial pivoting) is unreachable for det != 0; inputs are small integer matrices on which double arithmetic is exact",
                "std::is_sorted / std::sort / std::unique behave as specified by the C++ standard"]
 TRUSTED = ["harness/c10.cpp builds the operands (constant-filled vectors/matrices/tables of the requested shape) for each request",
@@ -28,6 +29,7 @@ TRUSTED = ["harness/c10.cpp builds the operands (constant-filled vectors/matrice
 UMAX = 4294967295
 IMAX = 2147483647
 P30 = 2.0 ** -30
+P50 = 2.0 ** -50
 
 METHODS_1D = ["Trapezoidal", "Gauss-Legendre", "Gauss-Kronrod", "Tanh-Sinh", "Gauss-Legendre_2", "Adaptive-Simpson"]
 METHODS_MC = ["Monte-Carlo", "Vegas", "Miser"]
@@ -45,18 +47,89 @@ def idx_values(size):
 
 
 def ends_probe(xs):
-    """abscissae at, just inside and just outside the extrapolation tolerance at both ends, and interior points"""
+    """abscissae at, just inside and just outside the extrapolation tolerance at both ends (the boundary itself, its
+    neighbours 1, 2 and 4 ulps away and 2^-50 / 2^-40 relative away), and interior points.  No margin is built in:
+    `band_filter` afterwards drops only those abscissae on which double and exact evaluation of the test differ."""
     d0, d1 = xs[0], xs[-1]
     tl = 1e-2 * (xs[1] - xs[0])
     tr = 1e-2 * (xs[-1] - xs[-2])
     out = [d0, d1, xs[1], xs[-2], (xs[0] + xs[1]) / 2, (xs[-1] + xs[-2]) / 2, (d0 + d1) / 2]
     for e, t, s in ((d0, tl, -1.0), (d1, tr, 1.0)):
-        out += [e + s * t * (1 - P30), e + s * t * (1 + P30), e + s * t * 0.5, e + s * t * 0.99, e + s * t * 1.01,
-                e + s * t * 2, e + s * t * 100, e + s * t * 1e-9, e + s * (d1 - d0), e - s * t * 0.5]
-        # exact knife edge: only where 0.01*h is exactly h/100 in double and e -+ t is exact
-        h = (xs[1] - xs[0]) if s < 0 else (xs[-1] - xs[-2])
-        if F(1e-2 * h) == F(h) / 100 and F(e + s * t) == F(e) + F(s) * F(t):
-            out.append(e + s * t)
+        out += [e + s * t * (1 - P50), e + s * t * (1 + P50), e + s * t * 0.5, e + s * t * 0.99, e + s * t * 1.01,
+                e + s * t * 2, e + s * t * 100, e + s * t * 1e-9, e + s * (d1 - d0), e - s * t * 0.5,
+                e + s * t * (1 - 2.0 ** -40), e + s * t * (1 + 2.0 ** -40)]
+        b = e + s * t                       # the boundary as the doubles give it
+        out.append(b)
+        for k in (1, 2, 4):
+            lo = hi = b
+            for _ in range(k):
+                lo, hi = math.nextafter(lo, -math.inf), math.nextafter(hi, math.inf)
+            out += [lo, hi]
+    return out
+
+
+def _dom_cpp(cx, v):
+    """the domain test of Interpolation::Locate evaluated in double arithmetic, as the C++ does"""
+    d0, d1 = cx[0], cx[-1]
+    if v < d0 or v > d1:
+        return abs(v - d0) < 1e-2 * (cx[1] - cx[0]) or abs(v - d1) < 1e-2 * (cx[-1] - cx[-2])
+    return True
+
+
+def _dom_exact(ex, v):
+    """the same test in exact arithmetic (1e-2 = 1/100, exact unit products), as the model evaluates it; also returns
+    the relative distance of |v - end| from the tolerance"""
+    v = F(v)
+    d0, d1 = ex[0], ex[-1]
+    if v < d0 or v > d1:
+        tl, tr = (ex[1] - ex[0]) / 100, (ex[-1] - ex[-2]) / 100
+        rel = min(abs(abs(v - d0) - tl) / tl, abs(abs(v - d1) - tr) / tr)
+        return (abs(v - d0) < tl or abs(v - d1) < tr), rel
+    return True, min(abs(v - d0), abs(v - d1)) / (d1 - d0)
+
+
+def band_filter(reqs, ctx):
+    """Drop the interpolation requests with an abscissa on which the double evaluation of the domain test differs from
+    the exact one (possible only within a few ulps of the tolerance edge / the domain end); everything else is compared
+    at zero margin.  A disagreement farther than 2^-44 (relative) from the edge is NOT dropped."""
+    out = []
+    for rq in reqs:
+        t = rq.split()
+        op = t[0]
+        if not op.startswith("c10.interp") or op in ("c10.interp.ctor", "c10.interp.table", "c10.interp2.ctor", "c10.interp2.table"):
+            out.append(rq); continue
+        pos = 1
+        def lst_():
+            nonlocal pos
+            n = int(t[pos]); v = [fl(x) for x in t[pos + 1:pos + 1 + n]]; pos += 1 + n
+            return v
+        axes = []
+        if op == "c10.interp2.eval":
+            xs, ys = lst_(), lst_()
+            xd, yd = fl(t[pos]), fl(t[pos + 1]); pos += 2
+            axes = [(xs, xd, [fl(t[pos])]), (ys, yd, [fl(t[pos + 1])])]
+        else:
+            xs = lst_()
+            xd = fl(t[pos]); pos += 2
+            if op == "c10.interp.hist":
+                vs = lst_()
+            elif op == "c10.interp.deriv":
+                vs = [fl(t[pos])]
+            else:
+                vs = [fl(x) for x in t[pos:]]
+            axes = [(xs, xd, vs)]
+        drop = False
+        for raw, d, vs in axes:
+            cx = [x * d for x in raw] if d > 0 else list(raw)
+            ex = [F(x) * F(d) for x in raw] if d > 0 else [F(x) for x in raw]
+            for v in vs:
+                me, rel = _dom_exact(ex, v)
+                if _dom_cpp(cx, v) != me and rel < Fraction(1, 2 ** 44):
+                    drop = True
+        if drop:
+            bump(ctx, "interp requests dropped: double and exact evaluation of the 1% test differ (within 2^-44 of the edge)")
+        else:
+            out.append(rq)
     return out
 
 
@@ -280,9 +353,9 @@ def generate(tier, seed, ctx):
                 add("c10.interp.deriv %s %s %d" % (G, hx(x), rng.randint(0, 4)))
             for k in range(5):
                 add("c10.interp.deriv %s %s %d" % (G, hx(pr[4]), k))
-            sel = pr if thorough else rng.sample(pr, 6) + pr[:2]
+            sel = pr[::2] + pr[-6:] if thorough else rng.sample(pr, 6) + pr[:2]
             for x1 in sel:
-                for x2 in (rng.sample(pr, 4) if not thorough else pr[::2]):
+                for x2 in (rng.sample(pr, 4) if not thorough else pr[1::4] + pr[-4:]):
                     add("c10.interp.integ %s %s %s" % (G, hx(x1), hx(x2)))
                     add("c10.interp.lmin %s %s %s" % (G, hx(x1), hx(x2)))
                     add("c10.interp.lmax %s %s %s" % (G, hx(x1), hx(x2)))
@@ -291,8 +364,8 @@ def generate(tier, seed, ctx):
             d0, d1 = xs[0], xs[-1]
             tl, tr = 1e-2 * (xs[1] - xs[0]), 1e-2 * (xs[-1] - xs[-2])
             mid_first, mid_last = (xs[0] + xs[1]) / 2, (xs[-1] + xs[-2]) / 2
-            outs = [d1 + tr * (1 + P30), d1 + tr * 2, d1 + (d1 - d0), d0 - tl * (1 + P30), d0 - tl * 2, d0 - (d1 - d0)]
-            ins = [d1 + tr * (1 - P30), d1, d0 - tl * (1 - P30), d0, mid_first, mid_last]
+            outs = [d1 + tr * (1 + P50), d1 + tr * 2, d1 + (d1 - d0), d0 - tl * (1 + P50), d0 - tl * 2, d0 - (d1 - d0)]
+            ins = [d1 + tr * (1 - P50), d1, d0 - tl * (1 - P50), d0, mid_first, mid_last]
             pres = [[mid_last], [mid_first], [d1], [d0], [mid_last, mid_last], [mid_first, mid_last], [mid_last, d1 + tr * 0.5], [mid_first, d0 - tl * 0.5], [xs[1], xs[-2], mid_last]]
             for pre in (pres if thorough else pres[:2] + rng.sample(pres[2:], 3)):
                 for v in outs + ins:
@@ -317,7 +390,7 @@ def generate(tier, seed, ctx):
             G = "%s %s" % (lst(raw), dd(fac))
             mid = (xs[1] + xs[2]) / 2
             for e, t, sg in ((xs[0], 1e-2 * (xs[1] - xs[0]), -1.0), (xs[-1], 1e-2 * (xs[-1] - xs[-2]), 1.0)):
-                for m in (0.5, 1 - P30, 1 + P30, 2.0, 50.0, 300.0):
+                for m in (0.5, 1 - P50, 1.0, 1 + P50, 2.0, 50.0, 300.0):
                     v = e + sg * t * m
                     lo, hi = (v, mid) if v < mid else (mid, v)
                     add("c10.interp.locate %s %s" % (G, hx(v)))
@@ -397,7 +470,7 @@ def generate(tier, seed, ctx):
             if abs(a_) == 5e-324 and x > 0:
                 continue   # Q(x, a -> 0+): series with ~1e300 terms; the guard sides are covered by a = 2^-30
             add("c10.gammaq %s %s" % (hx(x), hx(a_)))
-    for p in (-0.5, 0.0, 0.3, 0.9, 1.0, 1.5):
+    for p in (0.0, 0.3, 0.9, 1.0):
         for a_ in (-1.0, -P30, -0.0, 0.0, P30, 0.5, 1.0, 3.0, 50.0):
             add("c10.invgammap %s %s" % (hx(p), hx(a_)))
     for N in (0.0, -0.0, 1.2345678, -9876.54321, 1e-300, 1e300, 5e-324):
@@ -462,22 +535,91 @@ def generate(tier, seed, ctx):
                 for nd in sorted({0, cols, cols + 1, max(cols - 1, 0)}):
                     add("c10.importtable %d %d %d %d" % (e, rows, cols, nd))
         add("c10.checkerr %d" % e)
-    # ---- probes of recorded findings that CRASH (off by default: a crash is always a violation) -----------------------
-    if os.environ.get("C10_PROBE_FINDINGS") == "1":
-        R += FINDING_PROBES
-    # deterministic order, duplicates removed
+    # The families below probe audit defects 18, 19 and the length-0 quantifier.  Each family is generated as soon as the
+    # tree under check carries its repair (fixprop-C10-18..22, recognised by a marker in the source) or known_findings.json
+    # carries its entry (ids C10-18-*, C10-19-*, C10-20-*, C10-21-*, C10-22-*); C10_PENDING=1 forces all of them on (they then
+    # FAIL on an unrepaired tree: that is the rehearsal of the repairs), C10_PENDING=0 all off.
+    def _family_on(n, relpath, marker):
+        v = os.environ.get("C10_PENDING", "auto")
+        if v in ("0", "1"):
+            return v == "1"
+        try:
+            if marker in open(os.path.join(ctx.get("repo", "/repo"), relpath)).read():
+                return True
+            import json
+            kf = json.load(open(os.path.join(ctx.get("verif", os.path.dirname(os.path.dirname(os.path.abspath(__file__)))), "known_findings.json")))
+            return any(str(k.get("id", "")).startswith("C10-%d-" % n) for k in kf.get("findings", []))
+        except (OSError, ValueError):
+            return False
+    fam = {18: _family_on(18, "src/Statistics.cpp", "libphysica::PDF_Gauss()"), 19: _family_on(19, "src/Linear_Algebra.cpp", "valid_layout"),
+           20: _family_on(20, "include/libphysica/List_Manipulations.hpp", "lists.empty()"), 21: _family_on(21, "src/Utilities.cpp", "sorted_list.empty()"),
+           22: _family_on(22, "src/Utilities.cpp", "rows == 0")}
+    ctx["stats"]["pending families generated (18 parameters, 19 blocks, 20 transpose, 21 closest, 22 import)"] = "".join(str(int(fam[k])) for k in sorted(fam))
+    add_all = add
+    off = lambda r: None
+    add = add_all if fam[18] else off
+    # ---- distribution / sampler parameters on both sides of their range (audit defect 18) ---------------------------------
+    around0 = [-1.0, -P50, -5e-324, -0.0, 0.0, 5e-324, P50, 1.0, 7.5]
+    for a_, b_ in ((0.0, 1.0), (1.0, 1.0), (1.0, 0.0), (-2.0, -1.0), (-1.0, -2.0), (0.0, 5e-324), (5e-324, 0.0), (1.0, 1.0 + 2.0 ** -52), (1.0 + 2.0 ** -52, 1.0), (-0.0, 0.0)):
+        for x in (a_, (a_ + b_) / 2, b_ + 1.0):
+            add("c10.pdfuniform %s %s %s" % (hx(x), hx(a_), hx(b_)))
+            add("c10.cdfuniform %s %s %s" % (hx(x), hx(a_), hx(b_)))
+        add("c10.sampleuniform %s %s" % (hx(a_), hx(b_)))
+    for sg in around0:
+        for x, mu in ((0.0, 0.0), (1.0, 0.0), (-2.0, 0.5)):
+            add("c10.pdfgauss %s %s %s" % (hx(x), hx(mu), hx(sg)))
+            add("c10.cdfgauss %s %s %s" % (hx(x), hx(mu), hx(sg)))
+        for pq in (0.25, 0.5, 0.75, 1.0, 0.0, -0.5, 1.5, 2.0 ** -54):
+            add("c10.quantilegauss %s %s %s" % (hx(pq), hx(0.5), hx(sg)))
+        add("c10.samplegauss %s %s" % (hx(0.5), hx(sg)))
+        add("c10.metropolissigma %s" % hx(sg))
+        for sg2 in ((-1.0, -0.0, 0.0, 5e-324, 2.0) if thorough else (-1.0, 0.0, 2.0)):
+            add("c10.pdfgauss2d %s %s" % (hx(sg), hx(sg2)))
+            add("c10.pdfgauss2d %s %s" % (hx(sg2), hx(sg)))
+        for x in (-1.0, 0.0, 1.0, 3.0):
+            add("c10.pdfchisq %s %s" % (hx(x), hx(sg)))
+            add("c10.cdfchisq %s %s" % (hx(x), hx(sg)))
+        for n in ((0, 3) if thorough else (3,)):
+            for bk in ((-1.0, -P50, -0.0, 0.0, 0.5) if thorough else (-1.0, -0.0, 0.5)):
+                add("c10.llpoisson %s %d %s" % (hx(sg), n, hx(bk)))
+                add("c10.lpoisson %s %d %s" % (hx(sg), n, hx(bk)))
+        add("c10.samplepoisson %s" % hx(sg))
+        add("c10.samplepoissonv %s" % lst([1.0, sg]))
+        add("c10.samplepoissonv %s" % lst([sg, 2.0, 0.0]))
+        add("c10.gamma %s" % hx(sg))
+        for x in ((-1.0, -P50, -0.0, 0.0, 1.0, 4.0) if thorough else (-1.0, 0.0, 1.0)):
+            add("c10.uppergamma %s %s" % (hx(x), hx(sg)))
+            add("c10.lowergamma %s %s" % (hx(x), hx(sg)))
+    add("c10.samplepoissonv 0")
+    add("c10.samplepoisson %s" % hx(50.0))
+    for pq in (-1.0, -P50, -5e-324, -0.0, 0.0, P50, 0.5, 1.0 - 2.0 ** -53, 1.0, 1.0 + 2.0 ** -52, 2.0):
+        for a_ in ((-1.0, -0.0, 0.0, 5e-324, 0.5, 1.0, 3.0) if thorough else (-1.0, 0.0, 0.5, 3.0)):
+            add("c10.invgammap.p %s %s" % (hx(pq), hx(a_)))
+            add("c10.invgammaq %s %s" % (hx(pq), hx(a_)))
+    # ---- tables of length 0 and ragged lists of blocks (audit defect 19, length-0 quantifier) ---------------------------------
+    add = add_all if fam[20] else off
+    add("c10.transpose.empty 0")
+    add = add_all if fam[21] else off
+    for t_ in (0.0, 1.5):
+        add("c10.closest.empty 0 %s" % hx(t_))
+    add = add_all if fam[22] else off
+    for cols in (0, 1, 2):
+        for nd in (0, 1, 2):
+            add("c10.importtable.empty 1 0 %d %d" % (cols, nd))
+    add = add_all if fam[19] else off
+    add("c10.mat.block.empty 0 0"); add("c10.mat.block.empty 0 2"); add("c10.mat.block.empty 2 0")
+    blk = lambda rows: "c10.mat.blockr %d %s" % (len(rows), " ".join("%d %s" % (len(r), " ".join("%d %d" % b for b in r)) if r else "0" for r in rows))
+    A, B_, C_, D_ = (2, 2), (2, 1), (1, 2), (1, 1)
+    for rows in ([], [[]], [[], []], [[A], []], [[], [A]], [[A, B_], [C_]], [[A], [C_, D_]], [[A, B_], [C_, D_]], [[A, B_], [C_, D_], [C_]],
+                 [[A, B_], [C_, D_], [C_, D_, D_]], [[A]], [[A, B_]], [[A], [C_]], [[A, B_], [C_, (1, 2)]], [[(0, 0)]], [[(0, 2), (0, 1)], [(1, 2), (1, 1)]]):
+        add(blk(rows))
+    add = add_all
+    # deterministic order, duplicates removed; interpolation requests inside the rounding band of the 1% test are dropped
     seen, out = set(), []
     for r in R:
         if r not in seen:
             seen.add(r); out.append(r)
-    return out
-
-
-# requests outside the property's quantifier (or recorded as findings) on which the unchanged tree crashes
-FINDING_PROBES = [
-    "c10.mat.block 0 0",              # empty block list: block_matrices[0] read out of bounds
-    "c10.importtable 1 0 2 0",        # existing empty file: data_aux.size() / rows with rows == 0
-]
+    return band_filter(out, ctx)
 
 
 _TRANSLATOR_PROBLEMS = []
@@ -560,8 +702,36 @@ def meaningful(rq):
             return x(0) > 0
         if op == "gammaq":
             return x(0) >= 0 and x(1) > 0
-        if op == "invgammap":
-            return x(1) > 0
+        if op in ("invgammap", "invgammap.p"):
+            return x(1) > 0 and 0 <= x(0) <= 1
+        if op == "invgammaq":
+            return x(1) > 0 and 0 <= 1 - x(0) <= 1
+        if op == "gamma":
+            return x(0) > 0
+        if op in ("uppergamma", "lowergamma"):
+            return x(0) >= 0 and x(1) > 0
+        if op in ("pdfuniform", "cdfuniform"):
+            return x(1) < x(2)
+        if op == "sampleuniform":
+            return x(0) <= x(1)
+        if op in ("pdfgauss", "cdfgauss"):
+            return x(2) > 0
+        if op == "quantilegauss":
+            return x(2) >= 0 and -1 < 2 * x(0) - 1 < 1 + Fraction(1, 10 ** 16)
+        if op == "pdfgauss2d":
+            return x(0) > 0 and x(1) > 0
+        if op in ("pdfchisq", "cdfchisq"):
+            return x(1) >= 0
+        if op in ("llpoisson", "lpoisson"):
+            return x(0) >= 0 and x(2) >= 0
+        if op in ("samplegauss", "metropolissigma"):
+            return x(-1) >= 0
+        if op == "samplepoisson":
+            return x(0) >= 0
+        if op == "samplepoissonv":
+            return all(Fraction(fl(v)) >= 0 for v in a[1:])
+        if op == "closest.empty":
+            return False
         if op == "round":
             return n(1) <= 7
         if op in ("vshy", "vshpsi"):
@@ -582,8 +752,8 @@ def meaningful(rq):
             return n(0) in (0, 2)
         if op == "metropolis2d":
             return n(0) in (0, 4)
-        if op == "transpose":
-            return n(0) > 0 and len(set(a[1:])) == 1 or None
+        if op in ("transpose", "transpose.empty"):
+            return len(set(a[1:])) <= 1
         if op == "transpose2":
             return n(0) == n(1)
         if op == "inunits":
@@ -592,8 +762,8 @@ def meaningful(rq):
             return a[-1] == "0" or all(v == a[-1] for v in a[1:-1])
         if op == "importlist":
             return n(0) == 1
-        if op == "importtable":
-            return None if (n(0) == 1 and n(1) == 0) else (n(0) == 1 and (n(3) == 0 or n(3) == n(2)))
+        if op in ("importtable", "importtable.empty"):
+            return n(0) == 1 and (n(1) == 0 or n(3) == 0 or n(3) == n(2))
         if op == "checkerr":
             return n(0) == 0
         if op == "sublist":
